@@ -4,7 +4,7 @@ for every tool (run, record start/stop, sign, match-products; library and comman
 Sections (one case = one seed; every case is rebuilt from random.Random(seed), so it can be replayed):
   sigcheck  Metadata.verify_signature on the same payload / same signature configuration in both formats,
             and against the Coq model (op md_vsig);  sub-stream first_vs_any = known finding D14a (not a violation)
-  record    in_toto_run / in_toto_record_start+stop with use_dsse False/True, library and in-process CLI
+  record    in_toto_run / in_toto_record_start+stop / in_toto_mock with use_dsse False/True, library and in-process CLI
   sign      in-toto-sign (replace, --append, --verify, output naming) on the same file stored in both formats
   match     in_toto_match_products library call and in-toto-match-products CLI on the same link in both formats
 """
@@ -618,6 +618,7 @@ def _argv_common(env, p, keypath, keyflag="--signing-key"):
 
 
 def _case_record(ctx, seed):
+    import in_toto.in_toto_mock as cli_mock
     import in_toto.in_toto_record as cli_record
     import in_toto.in_toto_run as cli_run
     import in_toto.runlib as rl
@@ -762,10 +763,33 @@ def _case_record(ctx, seed):
                                    % (dsse, what, "an Envelope" if v else "a Metablock")))
             obs[dsse] = o
         compare("cli_record", obs)
+        # ---- in_toto_mock, library and CLI: unsigned link '<name>.link' of the current directory
+        menv = _RecordEnv(root, dict(p, use_base=None, metadir=None), spec, after)
+        for sub in ("lib_mock", "cli_mock"):
+            if sub == "cli_mock" and not menv.cmd:
+                continue
+            obs = {}
+            for dsse in (False, True):
+                menv.reset()
+                if sub == "lib_mock":
+                    res = call_tool(lambda: rl.in_toto_mock(p["name"], menv.cmd, dsse), cwd=menv.cwd)
+                else:
+                    argv = ["in-toto-mock", "--name", p["name"]] + (["--use-dsse"] if dsse else []) + ["--"] + menv.cmd
+                    res = call_tool(cli_mock.main, argv=argv, cwd=menv.cwd)
+                o = {"status": status(res), "files": listing(menv.cwd)}
+                md, cls = load_class(os.path.join(menv.cwd, p["name"] + ".link"))
+                o["load"] = cls
+                if md is not None:
+                    o["payload"], o["sig_keyids"] = payload_dict(md), sig_keyids(md)
+                    if is_envelope(md) != dsse:
+                        viols.append(_viol("record", case, "%s: use_dsse=%s but the written link is %s"
+                                           % (sub, dsse, "an Envelope" if is_envelope(md) else "a Metablock")))
+                obs[dsse] = o
+            compare(sub, obs)
     desc = dict(p)
     desc["tree"] = digest(fstree.spec_json(spec))
     desc["after"] = digest(fstree.spec_json(after))
-    return viols, {"desc": desc, "nontrivial": nontrivial, "stats": stats, "evaluations": 12}
+    return viols, {"desc": desc, "nontrivial": nontrivial, "stats": stats, "evaluations": 16}
 
 
 def check_record(ctx, rng_seed):
@@ -781,7 +805,10 @@ def _sign_params(rng):
     nops = rng.randrange(2, 6)
     for i in range(nops):
         r = rng.random()
-        if r < 0.55:
+        if r < 0.12:
+            op = {"op": "tamper", "what": rng.choice(["payload", "payload", "sig"]), "which": rng.randrange(4),
+                  "how": rng.choice(["nibble", "byte"]), "pos": rng.randrange(10000)}
+        elif r < 0.6:
             if kind == "link":
                 nk = 1 if rng.random() < 0.9 else 2
                 app = rng.random() < 0.08
@@ -789,9 +816,11 @@ def _sign_params(rng):
                 nk = rng.choice([1, 1, 2, 3])
                 app = rng.random() < 0.5
             op = {"op": "sign", "keys": [k.tag for k in rng.sample(P, nk)], "append": app,
-                  "out": rng.choice([None, None, "out.%d.json" % i, "same"]), "missing_key": rng.random() < 0.04}
+                  "out": rng.choice([None, None, "out.%d.json" % i, "same"]), "missing_key": rng.random() < 0.04,
+                  # sign again with a key that has already signed the current file (resolved when the case runs)
+                  "resign": rng.random() < 0.3, "pick": rng.randrange(1000)}
         else:
-            mode = rng.choice(["signers", "signers", "one_signer", "wrong", "mixed", "private_as_public"])
+            mode = rng.choice(["signers"] * 4 + ["one_signer"] * 2 + ["wrong"] * 2 + ["mixed"] * 3 + ["private_as_public"])
             op = {"op": "verify", "mode": mode, "pick": rng.randrange(1000), "wrong": rng.choice(P).tag}
         p["ops"].append(op)
     return p
@@ -827,8 +856,29 @@ def _case_sign(ctx, seed):
             cur_md, _ = load_class(os.path.join(dirs["metablock"], cur["metablock"]))
             cur_ids = sig_keyids(cur_md) if cur_md is not None else []
             cur_tags = [tk.tag for tk in pool() if tk.ck.keyid in cur_ids]
-            if op["op"] == "sign":
+            if op["op"] == "tamper":
+                # the same edit of the stored file in both formats (content after signing / first signature)
+                for fmt in ("metablock", "envelope"):
+                    path = os.path.join(dirs[fmt], cur[fmt])
+                    with open(path, encoding="utf8") as f:
+                        fj = json.load(f)
+                    if op["what"] == "payload":
+                        _edit_payload(fj, op["which"])
+                    elif fj["signatures"]:
+                        _tamper_sig(fj, 0, op["how"], op["pos"])
+                    with open(path, "w", encoding="utf8") as f:
+                        json.dump(fj, f)
+                    md, cls = load_class(path)
+                    obs[fmt] = {"status": "tampered", "load": cls, "payload": payload_dict(md) if md is not None else None,
+                                "vsig": {t: vsig_class(md, by_tag(t).ck.pub) for t in sorted(involved)} if md is not None else None}
+                    res[fmt] = {"log": []}
+                if obs["metablock"]["payload"] is not None:
+                    original = obs["metablock"]["payload"]
+                nontrivial = True
+            elif op["op"] == "sign":
                 keys = list(op["keys"])
+                if op.get("resign") and cur_tags:
+                    keys = [cur_tags[op["pick"] % len(cur_tags)]]
                 involved.update(keys)
                 out = cur["metablock"] if op["out"] == "same" else op["out"]
                 kpaths = [kf[t][0] for t in keys]
@@ -879,6 +929,8 @@ def _case_sign(ctx, seed):
                         tags.reverse()
                 else:
                     tags = cur_tags[:1] or [op["wrong"]]
+                if p["kind"] == "link" and len(tags) > 1 and op["pick"] % 5:
+                    tags = [tags[op["pick"] % len(tags)]]     # in-toto-sign takes one key for links (several: usage error, kept rare)
                 involved.update(tags)
                 kpaths = [kf[t][1] for t in tags]
                 if op["mode"] == "private_as_public":
@@ -889,7 +941,32 @@ def _case_sign(ctx, seed):
                     obs[fmt] = {"status": status(res[fmt]), "files": listing(dirs[fmt])}
             a, b = obs["metablock"], obs["envelope"]
             stats["sign.%s.%s" % (op["op"], a["status"])] += 1
-            if a["status"] != "exit:0":
+            # Known finding D14a reached through the command line: two signatures by one key with a stale one first
+            # (content or signature edited, then '--append' with the same key). Metablock checks the first signature
+            # of the key only, DSSE any: excused exactly for those keys and exactly for the pair (reject, accept).
+            ids_now = a["sig_keyids"] if "sig_keyids" in a and a.get("sig_keyids") == b.get("sig_keyids") else cur_ids
+            if op["op"] == "verify" or "sig_keyids" not in a:
+                ids_now = cur_ids
+            dups = {x for x in ids_now if ids_now.count(x) > 1}
+            is_d14a = lambda t, x, y: by_tag(t).ck.keyid in dups and (x, y) == ("SignatureVerificationError", "ok")
+            if dups and isinstance(a.get("vsig"), dict) and isinstance(b.get("vsig"), dict) and set(a["vsig"]) == set(b["vsig"]):
+                hit = [t for t in a["vsig"] if a["vsig"][t] != b["vsig"][t] and is_d14a(t, a["vsig"][t], b["vsig"][t])]
+                if hit:
+                    stats["sign.d14a_reproduced_via_cli"] += 1
+                    a, b = dict(a), dict(b)
+                    a["vsig"] = {t: v for t, v in a["vsig"].items() if t not in hit}
+                    b["vsig"] = {t: v for t, v in b["vsig"].items() if t not in hit}
+            if dups and op["op"] == "verify" and (a["status"], b["status"]) == ("exit:1", "exit:0"):
+                mdm, _ = load_class(os.path.join(dirs["metablock"], cur["metablock"]))
+                mde, _ = load_class(os.path.join(dirs["envelope"], cur["envelope"]))
+                if mdm is not None and mde is not None and op["mode"] != "private_as_public":
+                    cls = {t: (vsig_class(mdm, by_tag(t).ck.pub), vsig_class(mde, by_tag(t).ck.pub)) for t in tags}
+                    diff = [t for t in tags if cls[t][0] != cls[t][1]]
+                    if diff and all(is_d14a(t, *cls[t]) for t in diff):
+                        stats["sign.d14a_reproduced_via_cli_verify"] += 1
+                        a, b = dict(a), dict(b)
+                        a["status"] = b["status"] = "exit:1/exit:0 (D14a)"
+            if a["status"] not in ("exit:0", "tampered"):
                 nontrivial = True
             for k in sorted(set(a) | set(b)):
                 if a.get(k) != b.get(k):
@@ -901,7 +978,7 @@ def _case_sign(ctx, seed):
                 nontrivial = True
     desc = dict(p)
     desc["payload"] = digest(original)
-    return viols, {"desc": desc, "nontrivial": nontrivial, "stats": stats, "evaluations": 2 * len(p["ops"])}
+    return viols, {"desc": desc, "nontrivial": nontrivial, "stats": stats, "evaluations": 2 * sum(1 for o in p["ops"] if o["op"] != "tamper")}
 
 
 def check_sign(ctx, rng_seed):
@@ -1063,9 +1140,9 @@ def run_tools(ctx, n):
     evaluations = 0
     result = {"d14a_case": None}
     # all seeds first, so that the stream of ctx.rng does not depend on what happens in the cases
-    plan = {"sigcheck": [(ctx.rng.getrandbits(48), "main") for _ in range(5 * n)] +
+    plan = {"sigcheck": [(ctx.rng.getrandbits(48), "main") for _ in range(4 * n)] +
                         [(ctx.rng.getrandbits(48), "first_vs_any") for _ in range(max(3, n // 2))],
-            "record": [ctx.rng.getrandbits(48) for _ in range(n)],
+            "record": [ctx.rng.getrandbits(48) for _ in range(max(2, (3 * n) // 4))],
             "sign": [ctx.rng.getrandbits(48) for _ in range(2 * n)],
             "match": [ctx.rng.getrandbits(48) for _ in range(2 * n)]}
     walls = {}
